@@ -143,20 +143,45 @@ fn exact_phase_recognition() {
     kani::cover!(oracle(&s).is_none() && s.0[0].val != 0 && s.0[2].val != 0 && s.0[1].val == 0 && s.0[3].val == 0);
 }
 
-/// quick-tier stand-in for `exact_phase_recognition` (BOUNDED: mantissas restricted to {0, 2^63, 2^63 + 2^62},
-/// exponents to 8 consecutive values); the full-width harness above runs in the thorough tier
+/// the branch without multiplication: at most one non-zero coefficient (complete for that family)
 #[kani::proof]
 #[kani::unwind(5)]
-fn exact_phase_recognition_small() {
-    let s = Scalar4([any_exact_dyadic(), any_exact_dyadic(), any_exact_dyadic(), any_exact_dyadic()]);
-    for k in 0..4 {
-        kani::assume(s.0[k].val & ((1u64 << 62) - 1) == 0);
-        kani::assume(s.0[k].val == 0 || (s.0[k].exp >= -67 && s.0[k].exp <= -60));
-    }
+fn exact_phase_recognition_one_coeff() {
+    let i: usize = kani::any();
+    kani::assume(i < 4);
+    let d = any_exact_dyadic();
+    //@KNOWN-FINDING-CARVEOUT val_and_exp
+    let mut c = [zero(), zero(), zero(), zero()];
+    c[i] = d;
+    let s = Scalar4(c);
     let got = s.exact_phase_and_sqrt2_pow();
     let want = oracle(&s).map(|(k, p)| (Phase::new(Rational64::new(k as i64, 4)), p));
-    assert!(got == want, "exact_phase_and_sqrt2_pow (small domain): Some((k/4, p)) exactly for the scalars omega^k * sqrt2^p, None otherwise");
+    // a zero scalar has no coefficient to read: the code panics on `find(..).unwrap()`; excluded here, reported separately
+    kani::assume(d.val != 0);
+    assert!(got == want, "exact_phase_and_sqrt2_pow (one coefficient): +-2^m omega^i is recognised with k = i or i + 4 and p = 2m, anything else is None");
+    kani::cover!(want.is_some() && sgn(&d));
+    kani::cover!(want.is_none());
+}
+
+/// quick-tier stand-in for the two-coefficient branch (BOUNDED: mantissas in {0, 2^63}, exponents in {e, e+1} for one
+/// symbolic e in a window of 8); the full-width harness `exact_phase_recognition` runs in the thorough tier
+#[kani::proof]
+#[kani::unwind(5)]
+fn exact_phase_recognition_pow2_coeffs() {
+    let e: i32 = kani::any();
+    kani::assume(e >= -67 && e <= -60);
+    let mut c = [zero(), zero(), zero(), zero()];
+    for k in 0..4 {
+        if kani::any() {
+            c[k] = Dyadic { flags: if kani::any() { SIGN } else { 0 }, exp: if kani::any() { e } else { e + 1 }, val: TOP };
+        }
+    }
+    let s = Scalar4(c);
+    kani::assume(!s.is_zero());
+    let got = s.exact_phase_and_sqrt2_pow();
+    let want = oracle(&s).map(|(k, p)| (Phase::new(Rational64::new(k as i64, 4)), p));
+    assert!(got == want, "exact_phase_and_sqrt2_pow (power-of-two coefficients): Some((k/4, p)) exactly for omega^k * sqrt2^p, None otherwise");
     kani::cover!(matches!(oracle(&s), Some((5, _))));
     kani::cover!(matches!(oracle(&s), Some((2, _))));
-    kani::cover!(oracle(&s).is_none() && s.0[0].val != 0 && s.0[2].val != 0);
+    kani::cover!(oracle(&s).is_none() && s.0[0].val != 0 && s.0[2].val != 0 && s.0[1].val == 0 && s.0[3].val == 0);
 }
